@@ -5,10 +5,13 @@ package aliyun
 import (
 	"context"
 	"errors"
+	"net"
 	"net/netip"
+	"time"
 
 	zz "github.com/AliyunContainerService/terway/internal/zzverif"
 	"github.com/AliyunContainerService/terway/pkg/aliyun/client"
+	vswpool "github.com/AliyunContainerService/terway/pkg/vswitch"
 )
 
 var errZZAPI = errors.New("openapi error")
@@ -83,5 +86,100 @@ func ZZ_C07_factory_reports_assigned() {
 		zz.Reach("assigned but not confirmed")
 	} else {
 		zz.Reach("assigned and confirmed")
+	}
+}
+
+// C07 (a failed create is marked for deletion, not leaked), factory side of
+// the hand-over: once the cloud has created the interface, every way the rest
+// of the creation can fail (attach refused, addresses or MAC not showing up in
+// the metadata, subnet / gateway lookup failing, final status check failing)
+// still returns the interface description to the pool - which records it as
+// deleting and removes it - and returns no interface only when the cloud
+// created none.
+// zz:noreplay the OpenAPI client, the vSwitch pool and the metadata service are replaced through engine-side overrides
+func ZZ_C07_factory_create_reports_eni() {
+	failAt := zz.Fork("fail.at", 9) // 0 none, 1 create, 2 attach, 3 ip not in metadata, 4 mac not in metadata, 5 cidr, 6 gateway, 7 describe fails, 8 never in use
+	ipv6 := zz.Fork("ipv6", 2)
+	zz.Override("time.After", func(d time.Duration) <-chan time.Time {
+		c := make(chan time.Time, 1)
+		c <- time.Time{}
+		return c
+	})
+	zz.Override("(*github.com/AliyunContainerService/terway/pkg/vswitch.SwitchPool).GetOne", func(s *vswpool.SwitchPool, ctx context.Context, c client.VPC, zone string, ids []string, opts ...vswpool.SelectOption) (*vswpool.Switch, error) {
+		return &vswpool.Switch{ID: "vsw-1", Zone: zone, AvailableIPCount: 10}, nil
+	})
+	created := false
+	zz.Override("(*github.com/AliyunContainerService/terway/pkg/aliyun/client.OpenAPI).CreateNetworkInterface", func(a *client.OpenAPI, ctx context.Context, opts ...client.CreateNetworkInterfaceOption) (*client.NetworkInterface, error) {
+		if failAt == 1 {
+			return nil, errZZAPI
+		}
+		created = true
+		e := &client.NetworkInterface{NetworkInterfaceID: "eni-new", MacAddress: "00:00:00:00:00:09", VSwitchID: "vsw-1", PrivateIPAddress: "10.0.0.9",
+			PrivateIPSets: []client.IPSet{{IPAddress: "10.0.0.9", Primary: true}}}
+		if ipv6 > 0 {
+			e.IPv6Set = []client.IPSet{{IPAddress: "fd00::9"}}
+		}
+		return e, nil
+	})
+	zz.Override("(*github.com/AliyunContainerService/terway/pkg/aliyun/client.OpenAPI).AttachNetworkInterface", func(a *client.OpenAPI, ctx context.Context, opts ...client.AttachNetworkInterfaceOption) error {
+		if failAt == 2 {
+			return errZZAPI
+		}
+		return nil
+	})
+	zz.Override("github.com/AliyunContainerService/terway/pkg/aliyun/metadata.GetIPv4ByMac", func(mac string) ([]netip.Addr, error) {
+		if failAt == 3 {
+			return nil, nil
+		}
+		return []netip.Addr{netip.MustParseAddr("10.0.0.9")}, nil
+	})
+	zz.Override("github.com/AliyunContainerService/terway/pkg/aliyun/metadata.GetIPv6ByMac", func(mac string) ([]netip.Addr, error) {
+		return []netip.Addr{netip.MustParseAddr("fd00::9")}, nil
+	})
+	zz.Override("github.com/AliyunContainerService/terway/pkg/aliyun/metadata.GetENIsMAC", func() ([]string, error) {
+		if failAt == 4 {
+			return nil, errZZAPI
+		}
+		return []string{"00:00:00:00:00:09"}, nil
+	})
+	zz.Override("github.com/AliyunContainerService/terway/pkg/aliyun/metadata.GetVSwitchCIDR", func(mac string) (*net.IPNet, error) {
+		if failAt == 5 {
+			return nil, errZZAPI
+		}
+		return &net.IPNet{IP: net.IP{10, 0, 0, 0}, Mask: net.CIDRMask(24, 32)}, nil
+	})
+	zz.Override("github.com/AliyunContainerService/terway/pkg/aliyun/metadata.GetVSwitchIPv6CIDR", func(mac string) (*net.IPNet, error) {
+		return &net.IPNet{IP: net.ParseIP("fd00::"), Mask: net.CIDRMask(64, 128)}, nil
+	})
+	zz.Override("github.com/AliyunContainerService/terway/pkg/aliyun/metadata.GetENIGatewayAddr", func(mac string) (netip.Addr, error) {
+		if failAt == 6 {
+			return netip.Addr{}, errZZAPI
+		}
+		return netip.MustParseAddr("10.0.0.253"), nil
+	})
+	zz.Override("github.com/AliyunContainerService/terway/pkg/aliyun/metadata.GetENIV6GatewayAddr", func(mac string) (netip.Addr, error) {
+		return netip.MustParseAddr("fd00::fd"), nil
+	})
+	zz.Override("(*github.com/AliyunContainerService/terway/pkg/aliyun/client.OpenAPI).DescribeNetworkInterface", func(a *client.OpenAPI, ctx context.Context, vpcID string, eniID []string, instanceID string, instanceType string, status string, tags map[string]string) ([]*client.NetworkInterface, error) {
+		if failAt == 7 {
+			return nil, errZZAPI
+		}
+		st := client.ENIStatusInUse
+		if failAt == 8 {
+			st = client.ENIStatusAttaching
+		}
+		return []*client.NetworkInterface{{NetworkInterfaceID: eniID[0], Status: st}}, nil
+	})
+	a := &Aliyun{ctx: context.Background(), openAPI: &client.OpenAPI{}, vsw: &vswpool.SwitchPool{}, zoneID: "z1", vSwitchOptions: []string{"vsw-1"}, securityGroupIDs: []string{"sg-1"}, instanceID: "i-1"}
+	e, v4, v6, err := a.CreateNetworkInterface(1, ipv6, "secondary")
+	zz.Assert((err == nil) == (failAt == 0), "creation succeeds exactly without faults")
+	if !created {
+		zz.Assert(e == nil && len(v4) == 0 && len(v6) == 0, "nothing is reported when the cloud created nothing")
+		return
+	}
+	zz.Assert(e != nil && e.ID == "eni-new" && e.MAC == "00:00:00:00:00:09", "an interface the cloud created is always reported to the pool, also when a later step fails (the pool records it as deleting and removes it)")
+	if err == nil {
+		zz.Assert(len(v4) == 1 && len(v6) == ipv6 && e.GatewayIP.IPv4 != nil && e.VSwitchCIDR.IPv4 != nil, "a successful creation reports addresses, subnet and gateway")
+		zz.Assert(e.PrimaryIP.IPv4 != nil, "the primary address is reported")
 	}
 }
